@@ -90,6 +90,22 @@ def _lsb_exp(x):
     return e
 
 
+def positions_exact(files):
+    """np.inner(ipp, slice_normal) is exact in float64 whatever the summation order (also with fused multiply-add): the three
+    products and every partial sum are representable"""
+    import itertools as it
+    for f in files:
+        iop = [Fraction(x) for x in f['iop']]
+        n = cross(iop[3:6], iop[0:3])
+        if not all(is_float_exact(x) for x in n):
+            return False
+        p = [Fraction(a) * b for a, b in zip(f['ipp'], n)]
+        sums = list(p) + [p[a] + p[b] for a, b in it.combinations(range(3), 2)] + [sum(p)]
+        if not all(is_float_exact(x) for x in sums):
+            return False
+    return True
+
+
 def geometry_exact(files, dims):
     """Sufficient condition for every float operation of DicomWrapper.affine, from_dicom_wrapper, get_affine and
     reorder_voxels to be exact: every product/atom is a multiple of 2^-44 and any signed sum of them stays below 2^8
@@ -287,7 +303,7 @@ def make_stack_case(rng, S, T, V, orient='ax', direction=1, gap=2.0, origin=(0.,
     exact = orient in EXACT_ORIENTS and geometry_exact(files, (S, T, V)) and all(is_float_exact(x) for f in files for x in f['ipp'])
     case = {'kind': kind or ('%s-%s' % (ORIENT_CLASS[orient], 'exact' if exact else 'approx')),
             'time_order': time_order, 'vector_order': vector_order, 'files': files, 'add_order': order,
-            'vo': vo, 'exact': bool(exact), 'dims': [S, T, V],
+            'vo': vo, 'exact': bool(exact), 'pos_exact': bool(exact and positions_exact(files)), 'dims': [S, T, V],
             'info': {'orient': orient, 'direction': direction, 'mode': mode, 'acq': acq, 'tr': tr, 'phase': phase,
                      'bits': bits, 'pixrep': pixrep, 'slope': slope, 'intercept': intercept, 'alloc': alloc,
                      'pixmix': pixmix, 'bad_vol': bad_vol, 'time_key': time_key, 'vec_key': vec_key, 'tm_style': tm_style}}
@@ -695,9 +711,9 @@ def coq_case(case, obs):
     emb = obs.get('emb') or {}
     T = emb.get('T')
     qaff = next((r['affine'] for r in obs.get('q') or [] if r.get('op') == 'affine' and 'affine' in r), None)
-    return '(mkcase %s %s %s %s %s %s %s %s %s %s)' % (
+    return '(mkcase %s %s %s %s %s %s %s %s %s %s %s)' % (
         cbool(case.get('time_order') is not None), cbool(case.get('vector_order') is not None),
-        clist(coq_gfile(a) for a in gs), copt(case.get('vo'), cstr), cbool(bool(case['exact'])),
+        clist(coq_gfile(a) for a in gs), copt(case.get('vo'), cstr), cbool(bool(case['exact'])), cbool(bool(case.get('pos_exact', False))),
         clist(cmat(a['faff']) for a in gs), clist(coq_rescale(a) for a in gs),
         copt(qaff, lambda m: clist(clist(cq(x) for x in row) for row in m)),
         copt(T, lambda m: clist(clist(cq(x) for x in row) for row in m)), coq_obs(case, obs))
